@@ -156,6 +156,13 @@ class RawHeaderPacketReceiver(Elaboratable):
 
                 m.next = "WAIT_FOR_HPSTART"
 
+                # Header packets can be sent back to back; in which case the word we're looking at while
+                # checking this packet is already the next packet's HPSTART. Start receiving that packet
+                # now, rather than passing over its framing.
+                with m.If(stream_matches_symbols(sink, SHP, SHP, SHP, EPF)):
+                    m.d.comb += crc16.clear.eq(1)
+                    m.next = "RECEIVE_DW0"
+
 
         return m
 
